@@ -95,6 +95,18 @@ func init() {
 }
 
 func init() {
+	Properties["C11"] = PropertySpec{
+		Rules: []string{"R-RANGE", "R-TWIN", "R-SELFCMP"},
+		Explanation: "Narrow claim. Of the cell-union algebra only the comparison discipline is decided: every comparison of a cell's inclusive leaf range (RangeMin/RangeMax) with another id in " +
+			"cellunion.go, cellid.go, cell_index.go and s2intersect is inclusive on the right side; the first/last, begin/end and next/previous functions of CellID are mirror images; no test is duplicated " +
+			"and no value is compared with itself in these files.",
+		NotCovered: "everything that makes the algebra exact: the sibling-collapse arithmetic of Normalize, the index arithmetic of the two-pointer intersection and the recursive difference, the delta " +
+			"stack of CellIndex.Build, the sweep of s2intersect.Find, MaxTile's level arithmetic - identities of 64-bit arithmetic over all multisets of ids.",
+	}
+	anchorFiles["C11"] = []string{"s2/cellunion.go", "s2/cellid.go", "s2/cell_index.go", "s2/s2intersect/s2intersect.go"}
+}
+
+func init() {
 	Properties["C09"] = PropertySpec{
 		Rules: []string{"R-WIRE", "R-DETERMINISTIC", "R-STICKY", "R-SELFCMP"},
 		Explanation: "Lossless encoding, reduced to the clauses visible in code shape: the writer's and the reader's sequences of primitive fields agree for every codec pair (including loop nesting, optional bound, " +
@@ -188,18 +200,18 @@ func init() {
 	}
 	addRules("C01", "R-SAMEFACE")
 	addRules("C02", "R-CONSTREL", "R-SOSDERIVE")
-	addRules("C03", "R-VERTEXSYM", "R-CONSTREL")
-	addRules("C04", "R-RESET", "R-FLAGS", "R-PARTITION", "R-ALLLOOPS")
-	addRules("C05", "R-PADDING", "R-PARITY")
-	addRules("C06", "R-CLIPENDS", "R-RESET")
-	addRules("C07", "R-ROLES", "R-PARITY")
+	addRules("C03", "R-VERTEXSYM", "R-CONSTREL", "R-SOS", "R-SOSDERIVE")
+	addRules("C04", "R-RESET", "R-FLAGS", "R-PARTITION", "R-ALLLOOPS", "R-LOCK", "R-SYNCED")
+	addRules("C05", "R-PADDING", "R-PARITY", "R-FRESHRET")
+	addRules("C06", "R-CLIPENDS", "R-RESET", "R-ALLLOOPS")
+	addRules("C07", "R-ROLES", "R-PARITY", "R-PARTITION")
 	addRules("C08", "R-CONSTREL", "R-UNITS")
 	addRules("C15", "R-DERIVED")
-	addRules("C09", "R-DERIVED", "R-ALLLOOPS", "R-FLAGS", "R-INITORDER", "R-PAIR", "R-WIRECOUNT", "R-FIELDPAIR")
-	addRules("C10", "R-PADDING", "R-CONSTREL", "R-ALLLOOPS")
-	addRules("C13", "R-NOALIAS")
+	addRules("C09", "R-RAWFLOAT", "R-GLOBAL", "R-DERIVED", "R-ALLLOOPS", "R-FLAGS", "R-INITORDER", "R-PAIR", "R-WIRECOUNT", "R-FIELDPAIR")
+	addRules("C10", "R-PADDING", "R-CONSTREL", "R-ALLLOOPS", "R-ACCUM")
+	addRules("C13", "R-NOALIAS", "R-REINIT")
 	addRules("C14", "R-IDLE", "R-NOALIAS")
-	addRules("C18", "R-ROLES", "R-PARTITION", "R-ALLLOOPS")
+	addRules("C18", "R-ROLES", "R-PARTITION", "R-ALLLOOPS", "R-STAGES")
 	addRules("C19", "R-ROLES", "R-ORDERLAWS", "R-EXPAND", "R-UNITS")
 }
 
@@ -223,18 +235,33 @@ func init() {
 		Properties[prop] = pp
 		only(prop, map[string][]string{"R-TWIN": keys})
 	}
+	for prop, files := range anchorFiles {
+		pp := Properties[prop]
+		pp.Rules = append(pp.Rules, "R-DUP")
+		Properties[prop] = pp
+		keys := []string{"scan"}
+		for _, f := range files {
+			keys = append(keys, "dup:"+f+":")
+		}
+		only(prop, map[string][]string{"R-DUP": keys})
+	}
+	// C04: the lazily built index must be complete before an indexed containment query reads it - the status protocol of
+	// R-LOCK applies, the re-entry obligation (incremental updates, known finding D3 under C13/C14) does not.
+	only("C04", map[string][]string{"R-LOCK": {"atomic-status", "balanced", "publish", "status-store"}})
+	only("C06", map[string][]string{"R-ALLLOOPS": {"CrossingEdgeQuery"}})
+	only("C11", map[string][]string{"R-RANGE": {"CellID)", "CellUnion", "cellunion", "CellIndex", "cellIndex", "s2intersect"}, "R-TWIN": {"twin:s2.CellID."}})
 	predicateConsts := []string{"maxDeterminantError", "detErrorMultiplier", "triage", "stableSign", "cosDistance", "sin2Distance", "s2.dblEpsilon", "s2.dblError", "r1.dblEpsilon", "s1.dblEpsilon"}
 	clipConsts := []string{"edgeClip", "faceClip", "intersectsRect", "cellPadding", "ShapeIndex)", "boundaryApproxIntersects", "ShrinkToFit"}
 	only("C01", map[string][]string{"R-CONST": {"Cell).ContainsPoint", "maxXYZtoUVError"}, "R-RANGE": {"CellID)", "CellUnion", "cellunion"}})
 	only("C02", map[string][]string{"R-CONST": predicateConsts, "R-CONSTREL": {"r3.MaxPrec", "stableSign", "maxDeterminantError"}})
-	only("C03", map[string][]string{"R-CONST": {"EdgeCrosser", "intersection", "projection"}, "R-CONSTREL": {"stableSign", "maxDeterminantError"}, "R-STAGES": {"RobustSign", "expensiveSign", "exactSign", "bound:", "symbolicallyPerturbedSign"}})
+	only("C03", map[string][]string{"R-CONST": {"EdgeCrosser", "intersection", "projection"}, "R-CONSTREL": {"stableSign", "maxDeterminantError"}, "R-STAGES": {"RobustSign", "expensiveSign", "exactSign", "bound:", "symbolicallyPerturbedSign", "stage-callers"}})
 	only("C05", map[string][]string{"R-CONST": clipConsts, "R-PADDING": {"boundaryApproxIntersects"}, "R-CYCLE": {"coverer", "CellUnionBound"}, "R-PARITY": {"iteratorContainsPoint"}})
 	only("C06", map[string][]string{"R-CONST": clipConsts})
-	only("C07", map[string][]string{"R-ROLES": {"hasCrossing", "(*s2.Loop)."}, "R-PARITY": {"loopCrosser"}})
+	only("C07", map[string][]string{"R-ROLES": {"hasCrossing", "(*s2.Loop).", "initOneLoop"}, "R-PARITY": {"loopCrosser"}})
 	only("C08", map[string][]string{"R-CONSTREL": {"findEdgesInternal"}, "R-CYCLE": {"EdgeQuery", "CellUnionBound"}})
 	only("C09", map[string][]string{"R-CONST": {"siTitoPiQi"}, "R-SELFCMP": {"scan", "xyzToFaceSiTi", "stuv", "pointcompression", "s2."}})
 	only("C10", map[string][]string{"R-CONST": {"RectBounder", "ExpandForSubregions", "Cell).RectBound", "Cap).AddCap", "poleMinLat"}, "R-PADDING": {"Cap).RectBound"}, "R-CONSTREL": {"ExpandForSubregions", "RectBounder"}})
-	only("C18", map[string][]string{"R-CONST": {"turningAngleMaxError", "PointArea"}, "R-ROLES": {"CanonicalFirstVertex", "initOneLoop"}})
+	only("C18", map[string][]string{"R-CONST": {"turningAngleMaxError", "PointArea"}, "R-ROLES": {"CanonicalFirstVertex", "initOneLoop"}, "R-STAGES": {"stage-callers"}})
 	only("C19", map[string][]string{"R-ROLES": {"ChordAngle"}})
 	// error budgets of kernels whose own properties (C16, C17, C20) are not claimed are reported where the claimed
 	// properties depend on them: the conservative distance limits of the edge queries.
